@@ -14,7 +14,7 @@ theorem rt_KE (g : UInt16) (d bs : Bytes) (hd : 1 ≤ d.length) (h : marshalKE g
   unfold marshalKE at h
   simp only [Res.ok.injEq] at h; subst h
   unfold unmarshalKE
-  rw [if_neg (by len_omega), if_neg (by len_omega)]
+  rw [if_neg (by len_omega)]
   go_steps
   simp [put16, be16_put]
 
@@ -23,7 +23,7 @@ theorem rt_T4 (mk : UInt8 → Bytes → Payload) (t : UInt8) (d bs : Bytes) (hd 
   unfold marshalT4 at h
   simp only [Res.ok.injEq] at h; subst h
   unfold unmarshalT4
-  rw [if_neg (by len_omega), if_neg (by len_omega)]
+  rw [if_neg (by len_omega)]
   go_steps
   simp
 
@@ -32,7 +32,7 @@ theorem rt_T1 (mk : UInt8 → Bytes → Payload) (t : UInt8) (d bs : Bytes) (hd 
   unfold marshalT1 at h
   simp only [Res.ok.injEq] at h; subst h
   unfold unmarshalT1
-  rw [if_neg (by len_omega), if_neg (by len_omega)]
+  rw [if_neg (by len_omega)]
   go_steps
   simp
 
@@ -208,7 +208,7 @@ theorem rt_CP (ct : UInt8) (attrs : List CPAttr) (bs : Bytes) (hne : attrs ≠ [
           | err => simp [hr] at hm
           | fault => simp [hr] at hm
     unfold unmarshalCP
-    rw [if_neg (by len_omega), if_neg (by len_omega)]
+    rw [if_neg (by len_omega)]
     go_steps
     simp [rt_CPAttrs attrs body ht hm]
   | err => simp [hm] at h
